@@ -214,6 +214,10 @@ func runC05(p *Program, r *Result) {
 	checkSites(p, r, recipeSites, "C05")
 	r.Rule("R05.constants", "labels, sizes and format constants equal the specification table", 24)
 	checkConsts(p, r, constSites)
+	r.Rule("R05.armor-close", "armor: the line break before the footer is decided after the encoder flushed its final group", 1)
+	if cl := r.anchor(pkgArmor, "armoredWriter", "Close"); cl != nil {
+		checkFooterAfterClose(p, r, cl)
+	}
 	r.Rule("R05.stream-nonce", "STREAM nonce layout: 11-byte big-endian counter (carry from index len-2 down to 0), flag value at the last byte", 3)
 	checkNonceLayout(p, r)
 }
